@@ -283,9 +283,17 @@ def prefix_sibling_directories():
                  c_rm([b"src/pkg/util-test"]), c_commit(b"three"), c_ls_files(True), c_status()]
 
 
+def hostile_config_arguments():
+    return ID + [c_config(b".k", b"v"), c_status(), c_config(b"user.name", b"a\nb"), c_status(), c_config(b"us\ner.name", b"x"),
+                 c_config(b"user.na\nme", b"x", glob=True), c_config(b".", b"v", glob=True), c_config(b"core.x", b"line\n"), c_status(),
+                 c_config(b"core.editor", b"vi"), c_config(b"s.", b"empty key is storable"), W(b"f", b"1"), c_add([b"f"]), c_commit(b"c1"),
+                 c_log(1), c_config(b"a.b.c", b"v"), c_config(b"nodot", b"v"), c_status()]
+
+
 ORACLE_ONLY = {"newline-names", "invalid-ignore-lines", "quoting-ignore-lines"}
 
 DIRECTED = [
+    (("C20", "C18"), "hostile-config-arguments", hostile_config_arguments, "F51: an empty section name and line breaks in config arguments are refused with nothing written; every command still loads the configuration afterwards"),
     (("C02", "C05", "C07"), "prefix-sibling-directories", prefix_sibling_directories, "sibling directories util/ and util-test/ (lib/, lib.d/, 'lib (copy)/'): the longer name sorts first in path order; every entry must reach the commit's trees"),
     (("C13", "C17"), "inner-slash-ignore-lines", inner_slash_ignore_lines, "ignore lines with a slash in the middle and none at the end (Goit reads them as directory entries: text followed by anything)"),
     (("C17", "C13"), "ignored-name-directory-became-file", ignored_name_directory_became_file, "a tracked directory whose name an extension entry matches is replaced by a plain file of that name: the file is excluded"),
